@@ -27,4 +27,28 @@ META = {
         "note": _TB + "; three known findings (KNOWN_FINDINGS.txt) are attributed by precise triggers, everything else is reported",
         "technique": "runtime monitoring: attribution-function equality between recorded stream and decoded map()",
     },
+    "C05": {
+        "level": "runtime monitor over call histories: every observation (source, rope, buffer, size, to_writer, stream, on the object, on fresh clones and on clones taken mid-history) is compared with an executable splice model of the replacement list at that moment; histories interleave mutators and observers so a stale cached order is visible at the next observation",
+        "design_ref": "DESIGN.md section 4, C05",
+        "note": _TB,
+        "technique": "runtime monitoring: history replay against an executable sequential model",
+    },
+    "C07": {
+        "level": "runtime monitor comparing the five content views with each other and with the byte/text model of the spec, plus fault injection: a writer failing after k bytes (short writes included) for every k (thorough) or sampled k (quick)",
+        "design_ref": "DESIGN.md section 4, C07",
+        "note": _TB,
+        "technique": "runtime monitoring with fault injection at the writer boundary",
+    },
+    "C11": {
+        "level": "runtime monitor: every map() is decoded by the reference decoder and checked for charset, strictly increasing positions before the end of source() and in-table indices; every stream (4 modes) is checked online for announce-before-use and dense announced indices",
+        "design_ref": "DESIGN.md section 4, C11",
+        "note": _TB,
+        "technique": "runtime monitoring: online trace checker over stream events + decoded-map invariants",
+    },
+    "C13": {
+        "level": "runtime monitor (metamorphic): 13 differently built trees per random triple are compared with their reference on text and on per-character attribution through map(), both column settings",
+        "design_ref": "DESIGN.md section 4, C13",
+        "note": _TB + "; one known finding (finer column after empty replacements) attributed by a precise trigger",
+        "technique": "runtime monitoring: metamorphic relation oracle over attribution functions",
+    },
 }
